@@ -1,1 +1,3 @@
 import ZeepModel.Settings
+import ZeepModel.Lex.Base64
+import ZeepModel.Cache
